@@ -19,6 +19,16 @@ func init() {
 		Assumptions: []string{"Insert(key, nil) is outside the contract (nil encodes absence)", "an injected storage error inside a mutating operation is outside the property's quantifier (not generated here)"},
 	})
 	reg(&core.Property{
+		ID: "C04", Level: "exploration",
+		Batches: []core.Batch{
+			{Name: "byzantine", Engine: store.ProofEngine{}, Quick: 60000, Thorough: 2000000,
+				Rule: "a run is non-trivial when at least one honest answer was verified and at least one response was actually changed by a mutation operator"},
+		},
+		Real:        []string{"storage/mkvs proof builders (SyncGet/SyncGetPrefixes/SyncIterate), syncer.ProofVerifier, cache.remoteSync + MergeVerifiedSubtree, remote-backed tree lookup/iteration/prefetch"},
+		Stub:        []string{"the peer: a harness ReadSyncer applying seeded mutation operators to the honest responses of a real server tree (memdb-backed)", "transport (direct calls)"},
+		Assumptions: []string{"client cache capacity is unlimited or above the active path (tiny capacities are covered by the C02/C03 known finding)"},
+	})
+	reg(&core.Property{
 		ID: "C03", Level: "exploration",
 		Batches: []core.Batch{
 			{Name: "faultfree", Engine: store.TreeMapEngine{}, Quick: 100000, Thorough: 4000000,
